@@ -86,6 +86,8 @@ class C20(Prop):
             a, b, st = rng.randrange(-L, L + 1), rng.randrange(-L, L + 2), rng.choice((None, 1, 2, -1))
             yield {"k": "select", "kind": "slice", "ops": ops, "slice": [a, b, st]}
             yield {"k": "select", "kind": "mask", "ops": ops, "mask": [rng.random() < 0.5 for _ in range(L)]}
+            # the same kind of mask written as a plain Python list / tuple of bools (what mask.tolist() gives)
+            yield {"k": "select", "kind": "mask", "ops": ops, "mask": [rng.random() < 0.5 for _ in range(L)], "mform": ("list", "tuple")[t % 2], "pkg": "py"}
             yield {"k": "select", "kind": "array", "ops": ops, "idx": [rng.randrange(L) + 1 for _ in range(rng.randrange(1, 5))]}
             for e in range(4):
                 yield {"k": "scale", "ops": ops, "e": e, "obj": rng.choice(("list", "pauli"))}
@@ -167,6 +169,16 @@ class C20(Prop):
                 elif scn["kind"] == "mask":
                     rec["mask"] = scn["mask"]
                     m = numpy.array(scn["mask"], dtype=bool) if be.name == "py" else be.bvec(scn["mask"])
+                    if scn.get("mform"):
+                        rec["mform"] = scn["mform"]
+                        m = [bool(b) for b in scn["mask"]]
+                        if scn["mform"] == "tuple":
+                            m = list(m)        # (numpy reads a tuple as a multi-axis index: a list is the portable spelling)
+                        try:
+                            rec["ret"] = be.p_list(L[m])
+                        except Exception:
+                            return []          # refusing plain-Python masks is accepted; a wrong selection is not
+                        return [rec]
                     rec["ret"] = be.p_list(L[m])
                 else:
                     rec["idx"] = scn["idx"]
